@@ -35,10 +35,14 @@ impl FlowControl {
         loop {
             // We didn't have space available; set up a notification
             // so we can wait for it and check again.
+            #[cfg(deltio_verif)]
+            crate::verif::gate("fc:notified");
             let notified = self.notifier.notified();
             if self.has_available_space() {
                 return;
             }
+            #[cfg(deltio_verif)]
+            crate::verif::gate("fc:poll");
             notified.await;
         }
     }
@@ -46,20 +50,32 @@ impl FlowControl {
     /// Increments the outstanding values.
     pub fn inc(&self, outstanding_bytes_delta: u64, outstanding_messages_delta: u64) {
         // We only need Acq/Rel ordering because our changes are commutative.
+        #[cfg(deltio_verif)]
+        crate::verif::gate("fc:fetch_bytes");
         self.outstanding_bytes
             .fetch_add(outstanding_bytes_delta, Ordering::AcqRel);
+        #[cfg(deltio_verif)]
+        crate::verif::gate("fc:fetch_msgs");
         self.outstanding_messages
             .fetch_add(outstanding_messages_delta, Ordering::AcqRel);
+        #[cfg(deltio_verif)]
+        crate::verif::gate("fc:notify");
         self.notifier.notify_waiters();
     }
 
     /// Increments the outstanding values.
     pub fn dec(&self, outstanding_bytes_delta: u64, outstanding_messages_delta: u64) {
         // We only need Acq/Rel ordering because our changes are commutative.
+        #[cfg(deltio_verif)]
+        crate::verif::gate("fc:fetch_bytes");
         self.outstanding_bytes
             .fetch_sub(outstanding_bytes_delta, Ordering::AcqRel);
+        #[cfg(deltio_verif)]
+        crate::verif::gate("fc:fetch_msgs");
         self.outstanding_messages
             .fetch_sub(outstanding_messages_delta, Ordering::AcqRel);
+        #[cfg(deltio_verif)]
+        crate::verif::gate("fc:notify");
         self.notifier.notify_waiters();
     }
 
@@ -68,11 +84,15 @@ impl FlowControl {
     /// This uses atomic load operations. It is acceptable that we go above
     /// the limits.
     pub fn has_available_space(&self) -> bool {
+        #[cfg(deltio_verif)]
+        crate::verif::gate("fc:load_msgs");
         let available_messages = self.outstanding_messages.load(Ordering::Acquire);
         if available_messages >= self.max_outstanding_messages {
             return false;
         }
 
+        #[cfg(deltio_verif)]
+        crate::verif::gate("fc:load_bytes");
         let available_bytes = self.outstanding_bytes.load(Ordering::Acquire);
         if available_bytes >= self.max_outstanding_bytes {
             return false;
